@@ -28,6 +28,10 @@ type Obs struct {
 	// Presets: "holder.field" -> id of the object the application put into that optional,
 	// unsatisfiable point before Run.
 	Presets map[string]string `json:"presets,omitempty"`
+	// Lookup2 / CfgLate2: second round of lookups of the lazy components, after the
+	// application changed the configuration (Program.PostSetKey).
+	Lookup2  map[string]LookupObs         `json:"lookup2,omitempty"`
+	CfgLate2 map[string]map[string]string `json:"cfgLate2,omitempty"`
 	// CfgLate: configuration fields of lazy components, read after the by-name lookups.
 	CfgLate  map[string]map[string]string `json:"cfgLate,omitempty"`
 	RegOrder []string          `json:"regOrder,omitempty"`
